@@ -897,7 +897,7 @@ class CryptographyEngine(api.CryptographicEngine):
             self.logger.exception(e)
             raise exceptions.CryptographicFailure(
                 "The decryption process failed: {0}".format(
-                    e or type(e).__name__
+                    str(e) or type(e).__name__
                 )
             )
 
